@@ -180,9 +180,13 @@ Definition MAXLEN : nat := Z.to_nat 2147483647.
 Lemma make_eq a : option_map w (M_SmtString_make a) = smt_make a.
 Proof.
   unfold M_SmtString_make, SmtString_make, StrSearchGen.MAX_LENGTH, smt_make, StrSearch.MAX_LENGTH. cbv [bind].
-  destruct (Nat.ltb (Z.to_nat 2147483647) (length a)) eqn:E.
-  - apply Nat.ltb_lt in E. destruct (Z.of_nat (length a) >? 2147483647)%Z eqn:F; [reflexivity | lia].
-  - apply Nat.ltb_ge in E. destruct (Z.of_nat (length a) >? 2147483647)%Z eqn:F; [lia | reflexivity].
+  assert (B : Nat.leb (length a) (Z.to_nat 2147483647) = negb (Z.of_nat (length a) >? 2147483647)%Z).
+  { rewrite Z.gtb_ltb. destruct (Nat.leb (length a) (Z.to_nat 2147483647)) eqn:E; symmetry.
+    - apply Nat.leb_le, Nat2Z.inj_le in E. rewrite Z2Nat.id in E by (intro Hc; discriminate Hc).
+      apply negb_true_iff, Z.ltb_ge. exact E.
+    - apply Nat.leb_gt, Nat2Z.inj_lt in E. rewrite Z2Nat.id in E by (intro Hc; discriminate Hc).
+      apply negb_false_iff, Z.ltb_lt. exact E. }
+  rewrite ?Nat.ltb_antisym, B. destruct (Z.of_nat (length a) >? 2147483647)%Z; reflexivity.
 Qed.
 
 Lemma make_from_slice_eq a : option_map w (M_SmtString_make_from_slice a) = smt_make a.
